@@ -82,6 +82,20 @@ CHECKS = {
         note=TB + "; the table of expected positions (rules/c05.py SPEC) is the checker's statement of standard notation.",
         technique="static analysis: regex-language layout vs slice-offset provenance, argument provenance of the expansion incl. closure captures, table extraction",
     ),
+    "C06": dict(
+        cat="other",
+        text="Claims the token-level round trip (second sentence of the property) and the range-level separator clause, by comparing "
+             "two extracted models: the symbolic text of every token kind (fmt templates decoded, nested Display impls expanded to "
+             "rank / suit / literal characters and the f32 weight) against the parser branch for that kind (regex layout, "
+             "byte→field map, equalities, kind letter, weight offset and grammar): each emitted shape is accepted by exactly the "
+             "branch that rebuilds the same token from the bytes the formatter wrote, no earlier branch matches, the weight suffix is "
+             "written iff weight != 1.0 as ':' + default f32 Display which the grammar accepts, omitted weight = parser default, "
+             "tokens are joined by the parser's separator. That the token LIST emitted for a range denotes exactly that range (run "
+             "merging, leftovers) is NOT decided; no claim is made for it.",
+        ref="DESIGN.md §4 C06 (revised in §10)",
+        note=TB + "; f32 Display/parse round trip is a std guarantee; tokens well formed.",
+        technique="static analysis: writer/reader table agreement — decoded fmt templates vs regex-language layout and slice-offset provenance of the parser",
+    ),
     "C07": dict(
         cat="proof",
         text="Complete for the stated mechanism: the interval partition of hand_type() is extracted from MIR and "
@@ -190,7 +204,6 @@ CHECKS = {
 }
 
 NA = [
-    {"property_id": "C06", "reason": "round-trip equality of runtime values over 2^1326 subsets x weights; the only structural clause (formatter shapes accepted by parser) needs a string-language composition through five nested Display impls and would not touch the run-merging state machine; a frozen-shape proxy would be a false alarm in waiting (DESIGN.md §5)"},
     {"property_id": "C16", "reason": "numerical f32 sqrt/floor/ceil statement per worker count; no interval or shape argument bounds it, and the property is in fact violated for n=17,19,23,... which only evaluation can show (DESIGN.md §5)"},
 ]
 
